@@ -36,7 +36,8 @@ MORE_SIZES = [2, 5, 6, 12, 16, 32, 48, 96, 128, 100, 4095, 192]
 ALIGNS = [1, 2, 4, 8, 16, 32, 64]
 TYPED = [(1, 1), (3, 1), (4, 2), (8, 8), (24, 8), (64, 64), (64, 32), (4096, 16), (16, 16), (4, 4)]
 WORLDS = ["default", "id", "shared", "explicit"]
-ENV = {"ASAN_OPTIONS": "detect_leaks=1:abort_on_error=0:exitcode=99", "UBSAN_OPTIONS": "print_stacktrace=1:halt_on_error=1"}
+# leaks are not reported here: a leaked component is a lifecycle matter (C03), not an out-of-bounds / use-after-free / undefined-behaviour one
+ENV = {"ASAN_OPTIONS": "detect_leaks=0:abort_on_error=0:exitcode=99", "UBSAN_OPTIONS": "print_stacktrace=1:halt_on_error=1"}
 
 PROPERTY_KINDS = ("abort", "misaligned", "oob", "overlap", "unstable", "content", "null", "error", "fn-misaligned",
                   "temp-misaligned", "temp-oob", "temp-overlap", "capacity")
@@ -777,6 +778,20 @@ def shrink_world(ops, fails):
     return "\n".join(lines) + "\n"
 
 
+def run_world(exe, ops, timeout=60):
+    """world_driver under ASan+UBSan, leak detection off (see ENV). -> (output lines, note or None)"""
+    rc, out, err = vlib.run([exe], inp=ops, timeout=timeout, env=ENV)
+    note = None
+    if rc != 0 or wc.SAN.search(err):
+        m = wc.SAN.search(err)
+        first = ""
+        if m:
+            ls = err[m.start():].splitlines()
+            first = " | ".join(x.strip() for x in ls[:1] + [x for x in ls if " in " in x and "/src/mustache" in x][:3])
+        note = "abort rc=%s %s" % (rc, first[:600] or err[-300:].replace("\n", " | "))
+    return out.splitlines(), note
+
+
 def run_world_part(ctx):
     exe = ctx.harness("world_driver", "asan")
     rng = ctx.rng
@@ -799,25 +814,27 @@ def run_world_part(ctx):
         files.append(("random-world:%s:%d" % (cid, i), g.run(rng.randint(lo, hi * (3 if ctx.thorough else 1)))))
         per_cfg[cid] = per_cfg.get(cid, 0) + 1
     with cf.ThreadPoolExecutor(max(2, vlib.NPROC - 2)) as ex:
-        results = list(ex.map(lambda f: wc.run_impl(exe, f[1]), files))
-    bad = [(name, ops, note) for (name, ops), (_, note, _) in zip(files, results) if note]
-    life = [(name, ops, [l for l in out if "LIFECYCLE-ERROR" in l][0]) for (name, ops), (out, note, _) in zip(files, results)
+        results = list(ex.map(lambda f: run_world(exe, f[1]), files))
+    bad = [(name, ops, note) for (name, ops), (_, note) in zip(files, results) if note]
+    # construct-over-live / destroy-of-dead reports of the harness are C03's subject (component lifecycle); counted, not judged here
+    life = [(name, ops, [l for l in out if "LIFECYCLE-ERROR" in l][0]) for (name, ops), (out, note) in zip(files, results)
             if not note and any("LIFECYCLE-ERROR" in l for l in out)]
     reported = 0
     seen = set()
-    for name, ops, note in bad + life:
+    for name, ops, note in bad:
         sig = re.sub(r"0x[0-9a-f]+|\d+", "#", note)[:60]
         if sig in seen or reported >= 2:
             continue
         seen.add(sig)
 
         def fails(t):
-            out, nt, _ = wc.run_impl(exe, t)
-            return nt is not None or any("LIFECYCLE-ERROR" in l for l in out)
+            return run_world(exe, t)[1] is not None
         small = shrink_world(ops, fails)
         ctx.violation(small, "C10 fails on the implementation: world history (%s) aborts / raises a sanitizer report: %s" % (name, note[:500]))
         reported += 1
-    ctx.cov(world_histories=len(files), world_history_aborts=len(bad), world_lifecycle_errors=len(life), world_histories_per_generator=per_cfg)
+    ctx.cov(world_histories=len(files), world_history_aborts=len(bad), world_histories_per_generator=per_cfg,
+            lifecycle_reports_not_judged_here=len(life),
+            lifecycle_report_sample=(life[0][0] + ": " + life[0][2][:200]) if life else None)
     return reported, len(files)
 
 
@@ -833,9 +850,9 @@ def run(ctx):
     if world_replay:
         exe = ctx.harness("world_driver", "asan")
         text = open(replay).read()
-        out, note, _ = wc.run_impl(exe, text)
-        if note or any("LIFECYCLE-ERROR" in l for l in out):
-            ctx.violation(text, "C10 fails on the implementation: world history %s: %s" % (replay, note or "component lifecycle violated"))
+        out, note = run_world(exe, text)
+        if note:
+            ctx.violation(text, "C10 fails on the implementation: world history %s: %s" % (replay, note))
         ctx.cov(evaluations=1, internals_observed=True)
         internals = True
     else:
